@@ -28,13 +28,16 @@ use super::{ExprType, FlagsState, GeneratorState};
 
 impl<'a, 'b> GeneratorState<'a> {
     // An alternative of ?: that borrows Y gives it back on its own path
-    fn restore_y_borrowed_by_alternative(&mut self, saved_before: bool) {
-        if self.saved_y && !saved_before {
+    fn restore_y_borrowed_by_alternative(&mut self, saved_before: bool) -> bool {
+        let restore = self.saved_y && !saved_before;
+        if restore {
             self.asm_restore_y();
             self.saved_y = false;
             self.tmp_in_use = false;
-            self.flags = FlagsState::Unknown;
+            // The flags are those of Y, not those of the value of the alternative
+            self.flags = FlagsState::Y;
         }
+        restore
     }
 
     pub(crate) fn generate_ternary(
@@ -62,7 +65,7 @@ impl<'a, 'b> GeneratorState<'a> {
                         let saved_y = self.saved_y;
                         let left = self.generate_expr(lhs, pos, false, false)?;
                         let la = self.generate_assign(&ExprType::A(false), &left, pos, false)?;
-                        self.restore_y_borrowed_by_alternative(saved_y);
+                        let restored = self.restore_y_borrowed_by_alternative(saved_y);
                         self.asm(JMP, &ExprType::Label(ifend_label.clone()), pos, false)?;
                         self.label(&else_label)?;
                         self.acc_in_use = false;
@@ -70,6 +73,9 @@ impl<'a, 'b> GeneratorState<'a> {
                         let ra = self.generate_assign(&ExprType::A(false), &right, pos, false)?;
                         self.restore_y_borrowed_by_alternative(saved_y);
                         self.label(&ifend_label)?;
+                        if restored {
+                            self.flags = FlagsState::Y;
+                        }
                         self.asm(STA, &ExprType::Tmp(false), pos, false)?;
                         self.tmp_in_use = true;
                         self.sasm(PLA)?;
@@ -98,7 +104,7 @@ impl<'a, 'b> GeneratorState<'a> {
                             let left = self.generate_expr(lhs, pos, false, false)?;
                             let la =
                                 self.generate_assign(&ExprType::A(false), &left, pos, false)?;
-                            self.restore_y_borrowed_by_alternative(saved_y);
+                            let restored = self.restore_y_borrowed_by_alternative(saved_y);
                             self.asm(JMP, &ExprType::Label(ifend_label.clone()), pos, false)?;
                             self.label(&else_label)?;
                             self.acc_in_use = false;
@@ -107,6 +113,9 @@ impl<'a, 'b> GeneratorState<'a> {
                                 self.generate_assign(&ExprType::A(false), &right, pos, false)?;
                             self.restore_y_borrowed_by_alternative(saved_y);
                             self.label(&ifend_label)?;
+                            if restored {
+                                self.flags = FlagsState::Y;
+                            }
                             self.acc_in_use = true;
                             if la != ra {
                                 return Err(self.compiler_state.syntax_error(
